@@ -23,7 +23,7 @@ impl Group for E2eGroup {
             l("e2e refused socks"), l("e2e reuse 6"), l("e2e reaper"),
             l("e2e badpreamble bitflip"), l("e2e badpreamble random"), l("e2e badpreamble truncated"), l("e2e badpreamble good"),
             l("e2e badpreamble good 1"), l("e2e badpreamble trimmed 1"), l("e2e badpreamble good 3"), l("e2e badpreamble trimmed 5"), l("e2e badpreamble lower 10"),
-            l("e2e pushe2e"), l("e2e preamble 77"), l("e2e udp 1 100 1472 9000"), l("e2e udp6 1 100 1472 65507 3"), l("e2e udp 65507 1 30000 2"), l("e2e early socks 300"),
+            l("e2e pushe2e"), l("e2e preamble 77"), l("e2e finburst 5000 3 0"), l("e2e finburst 8192 4 0"), l("e2e finburst 3000 9 30"), l("e2e finburst 1 1 0"), l("e2e udp 1 100 1472 9000"), l("e2e udp6 1 100 1472 65507 3"), l("e2e udp 65507 1 30000 2"), l("e2e early socks 300"),
             l("e2e slow up direct 6000000"), l("e2e slow down socks 6000000"), l("e2e slow up socks 3000000"), l("e2e slow down http 3000000"), l("e2e slow up http 3000000"),
             l("e2e blackhole all"), l("e2e noname"), l("e2e certreload BxCtAmB"), l("e2e certreload xBEC"), l("e2e certreload DADxB"),
         ];
@@ -46,12 +46,14 @@ impl Group for E2eGroup {
         if !wanted(&line) {
             // draw again from the wanted scenarios only
             let only = std::env::var("VH_ONLY").unwrap_or_default();
-            let first = only.split(',').next().unwrap_or("echo").to_string();
+            let names: Vec<&str> = only.split(',').collect();
+            let first = rng.pick(&names).to_string();
             let alt = match first.as_str() {
                 "echo" => format!("e2e echo {} {} {}", rng.pick(&["socks_ip", "socks_domain", "direct", "http", "socks_ip6"]), rng.pick(&[1usize, 100, 4096, 8191, 8192, 8193, 16384, 65535, 65536, 200000, 1000000]), rng.range(1, 9)),
                 "halfclose" => format!("e2e halfclose {} {}", rng.pick(&["socks", "direct"]), rng.pick(&[0usize, 1, 5000, 200000])),
                 "targetclose" => format!("e2e targetclose socks {}", rng.pick(&[0usize, 1, 5000, 200000])),
                 "reuse" => format!("e2e reuse {}", rng.range(2, 12)),
+                "finburst" => format!("e2e finburst {} {} {}", rng.pick(&[1usize, 100, 4096, 5000, 8192, 8193, 20000, 65535]), rng.range(1, 12), rng.pick(&[0u64, 0, 1, 30])),
                 "badpreamble" => format!("e2e badpreamble {} {}", rng.pick(&["bitflip", "random", "truncated", "good", "good", "trimmed", "lower"]), rng.below(crate::g_auth::PASSWORDS.len() as u64)),
                 "udp" => format!("e2e {} {}", rng.pick(&["udp", "udp", "udp6"]), (0..rng.range(1, 5)).map(|_| rng.pick(&[1usize, 2, 100, 1472, 9000, 30000, 65507]).to_string()).collect::<Vec<_>>().join(" ")),
                 "early" => format!("e2e early socks {}", rng.pick(&[1usize, 300, 20000])),
@@ -121,6 +123,7 @@ async fn scenario(t: &[String]) -> Res {
         ["e2e", "badpreamble", kind] => badpreamble(kind, 0).await,
         ["e2e", "badpreamble", kind, pwi] => badpreamble(kind, pwi.parse().map_err(|_| "pwi")?).await,
         ["e2e", "pushe2e"] => pushe2e().await,
+        ["e2e", "finburst", n, k, cut] => finburst(n.parse().map_err(|_| "n")?, k.parse().map_err(|_| "k")?, cut.parse().map_err(|_| "cut")?).await,
         ["e2e", "preamble", k] => preamble2(k.parse().map_err(|_| "k")?).await,
         ["e2e", "udp", sizes @ ..] => udp(&sizes.iter().filter_map(|x| x.parse().ok()).collect::<Vec<usize>>(), false).await,
         ["e2e", "udp6", sizes @ ..] => udp(&sizes.iter().filter_map(|x| x.parse().ok()).collect::<Vec<usize>>(), true).await,
@@ -614,6 +617,54 @@ async fn badpreamble(kind: &str, pwi: usize) -> Res {
     }
     w.stop().await;
     Ok((format!("dialled={dialled} reply={}", (reply > 0) as u8), fails))
+}
+
+/// a peer that sends a burst of data frames and the stream's FIN right behind them (what a peer that writes and closes
+/// does; this crate's own client never sends FIN, so only a hand-made client can): the server's relay must hand every
+/// byte to the target before the target sees end of stream.  `cut` = 0: everything in one TLS write; otherwise the
+/// FIN travels in a second write `cut` ms later.
+async fn finburst(n: usize, k: usize, cut: u64) -> Res {
+    use sha2::{Digest, Sha256};
+    let w = World::start(None, None, pool_default(), false).await?;
+    let target = Target::start("127.0.0.1", Mode::Sink).await;
+    let mut fails = vec![];
+    let hash = { let mut h = Sha256::new(); h.update(b"pw"); h.finalize().to_vec() };
+    let cfg = anytls_rs::util::tls::create_client_config().map_err(|e| e.to_string())?;
+    let connector = tokio_rustls::TlsConnector::from(cfg);
+    let tcp = tokio::net::TcpStream::connect(w.server_addr).await.map_err(|e| e.to_string())?;
+    let name = tokio_rustls::rustls::pki_types::ServerName::IpAddress(std::net::IpAddr::V4(std::net::Ipv4Addr::LOCALHOST).into());
+    let mut tls = connector.connect(name, tcp).await.map_err(|e| e.to_string())?;
+    let mut msg = hash.clone();
+    msg.extend_from_slice(&[0, 0]);
+    msg.extend(crate::g_frame::ref_encode(4, 0, b"v=2"));
+    msg.extend(crate::g_frame::ref_encode(1, 1, &[]));
+    let mut dest = vec![1u8, 127, 0, 0, 1];
+    dest.extend_from_slice(&target.addr.port().to_be_bytes());
+    msg.extend(crate::g_frame::ref_encode(2, 1, &dest));
+    tls.write_all(&msg).await.map_err(|e| e.to_string())?;
+    tls.flush().await.map_err(|e| e.to_string())?;
+    // wait for the server's verdict on the open (SYNACK), so that the relay exists
+    let mut buf = vec![0u8; 4096];
+    let _ = tokio::time::timeout(Duration::from_secs(5), tls.read(&mut buf)).await;
+    let mut sent = vec![];
+    let mut burst = vec![];
+    for i in 0..k { let d = pattern(n, 0x40 + i as u8); burst.extend(crate::g_frame::ref_encode(2, 1, &d)); sent.extend(d); }
+    let fin = crate::g_frame::ref_encode(3, 1, &[]);
+    if cut == 0 { burst.extend(fin); tls.write_all(&burst).await.map_err(|e| e.to_string())?; tls.flush().await.map_err(|e| e.to_string())?; }
+    else {
+        tls.write_all(&burst).await.map_err(|e| e.to_string())?; tls.flush().await.map_err(|e| e.to_string())?;
+        tokio::time::sleep(Duration::from_millis(cut)).await;
+        tls.write_all(&fin).await.map_err(|e| e.to_string())?; tls.flush().await.map_err(|e| e.to_string())?;
+    }
+    let total = sent.len();
+    let _ = wait_until(Duration::from_secs(4), || target.snapshot().first().map(|c| c.eof || c.bytes.len() >= total).unwrap_or(false)).await;
+    let _ = wait_until(Duration::from_millis(1500), || target.snapshot().first().map(|c| c.eof).unwrap_or(false)).await;
+    let (got, eof) = target.snapshot().first().map(|c| (c.bytes.clone(), c.eof)).unwrap_or_default();
+    // O (C08): end of stream reaches the target after, and only after, every byte sent before the FIN
+    if got != sent { fails.push(fail("eof_before_all_data/server_relay", format!("the peer sent {k} frames of {n} bytes and FIN; the target received {} of {} bytes (end of stream seen: {eof})", got.len(), total))); }
+    else if !eof { fails.push(fail("fin_not_delivered/server_relay", format!("the peer sent {total} bytes and FIN; the target received the bytes and no end of stream"))); }
+    w.stop().await;
+    Ok((format!("delivered={}/{} eof={}", got.len(), total, eof as u8), fails))
 }
 
 async fn pushe2e() -> Res {
